@@ -34,6 +34,8 @@
   delivered message; messages the reference builds using the freedoms the document leaves (padding,
   no NUL, TLV mixes, numeral widths in fragments) are fed to the real library, which must accept and
   read them exactly.
+  `startAuthenticate_question_nul` (repaired code): the question of an SMP1Q TLV is written NUL terminated,
+  so a question containing a NUL byte cannot be represented; StartAuthenticate refuses it, state unchanged.
 -/
 
 import Proofs.Spec
@@ -235,5 +237,8 @@ theorem isExponent_spec : type_of% @Otr.isExponent_spec := @Otr.isExponent_spec
 theorem exponent_plus_order_invalid : type_of% @Otr.exponent_plus_order_invalid := @Otr.exponent_plus_order_invalid
 
 theorem deviation_smp_v2_group_element : type_of% @Otr.deviation_smp_v2_group_element := @Otr.deviation_smp_v2_group_element
+
+/-- repaired code: a question containing a NUL byte is refused (it could not be written as the document prescribes), state unchanged -/
+theorem startAuthenticate_question_nul : type_of% @Otr.startAuthenticate_question_nul := @Otr.startAuthenticate_question_nul
 
 end Otr.C10
